@@ -27,6 +27,22 @@ CHECKS.update({
  "C19": _e1("The five queries are evaluated after every event of every explored run and in every state of the cluster-history BFS, and compared with independently probed truth.", engine="E1+E2",
             technique="stateless exploration of simulation trajectories with a truth oracle after every event, plus explicit-state BFS over cluster operation histories"),
 })
+CHECKS.update({
+ "C10": _e1("The explorer owns set-iteration order through Task.__hash__: every permutation (<=120) of the hash order of a case's tasks is executed and all boundary trajectories, task tables and call logs must coincide; first/last permutation and a back-to-back repeat also in FULL mode (tables, event log); the seam is bound to the interpreter by separate-process runs under 8/64 real PYTHONHASHSEED values that must reproduce the enumerated output.",
+            technique="exhaustive enumeration of set-iteration orders (hash permutations) on the real simulation, conformance-checked against separate interpreter processes with real hash seeds"),
+ "C11": _e1("For every pause point k and every bounded split of the remainder, start(k);resume(..) is executed on the real Simulation with the real Monitor and compared (trajectory, per-timestep table, task table, event log) with one uninterrupted run; double start / early resume must raise and change nothing.",
+            technique="exhaustive enumeration of pause/resume histories on the real simulation against an uninterrupted reference run"),
+ "C12": _e1("With the real Monitor, every row t of the per-timestep table of every explored run is compared with the state probed at the beginning of timestep t, and the row count with the number of instants simulated."),
+ "C13": _e1("With the real Monitor, the event log of every explored run (and of start(k);resume(T) for every k on a subset) is compared with the life-cycle transitions the harness itself observed: exactly once, time stamp, causal order, duration."),
+ "C14": _e1("All labelled DAGs up to 4 (quick) / 5 (thorough) nodes with shuffled non-contiguous ids, data-demand and volume variants, two name/clock pairs are planned by the real Planner/BatchPlanning and compared with the workflow JSON.", engine="E3",
+            technique="exhaustive finite-domain enumeration (all labelled DAGs up to a size) against a reference"),
+ "C15": _e1("Every (distribution, degree, probability, seed, runtime) of the stated ranges through the real DelayModel, and every delay vector in {0,1,2}^n injected into small simulations: never fails, never shortens, identity cases, deterministic, flagged and reported.", engine="E3+E1",
+            technique="exhaustive finite-domain enumeration of DelayModel.generate_delay plus exhaustive delay-vector injection into the real simulation"),
+ "C16": _e1("Every unit spelling/factor x base configuration tuple is parsed by the three real Config.parse_* methods in seconds and in the unit and compared quantity by quantity, including cross-section invariants.", engine="E3",
+            technique="exhaustive finite-domain enumeration of configurations x units against the scaling law"),
+ "C18": _e1("All sizes x both rates x destination capacities x move histories (single moves, round trips) on a real Buffer with the real move processes stepped instant by instant against the min-rate reference.", engine="E2",
+            technique="explicit enumeration of move histories on the real Buffer with a lock-step reference model, checked after every timestep"),
+})
 NOT_APPLICABLE = {}
 NOTES = ("All checks: /venv/bin/python check.py <id> --tier quick|thorough, cwd /verif; exit 2 = harness error. "
          "Known findings: /verif/known_findings.json. Design: /verif/DESIGN.md.")
